@@ -406,9 +406,26 @@ def context_chain_cases():
     return out
 
 
+def provider_layer_cases(rng, thorough):
+    """a provider's output as one layer of a three-layer merge (evalgen.provider_layer_worlds): every plain reference of
+    the root is claimed to denote the value at its path in the final merged value"""
+    out = []
+    for i, w in enumerate(G.provider_layer_worlds(thorough)):
+        c = dict(w, show=True)
+        claims = []
+        for k, e in w["def"]["values"]:
+            if e[0] == "sym" and k.startswith("r_"):
+                claims.append("(path %s %s)" % (G.sx(k), G.w_path(e[1])))
+        c["claims"] = claims
+        c["def2"] = {"imports": w["def"]["imports"], "values": shuffle_keys(rng.fork("pl%d" % i), w["def"]["values"])}
+        out.append(c)
+    return out
+
+
 def gen(rng, tier):
     n = 6000 if tier == "thorough" else 500
     cases = context_chain_cases() + [gen_program(rng, tier == "thorough") for _ in range(n)]
+    cases += provider_layer_cases(rng.fork("layers"), tier == "thorough")
     r = rng.fork("interp")
     for _ in range(20000 if tier == "thorough" else 1500):
         cases.append(gen_interp(r) if r.chance(1, 2) else gen_interp_rt(r))
